@@ -17,16 +17,39 @@ PROPS = {
     "C05": dict(level="exploration", stages=[dict(kind="sim", quick=25, thorough=600)],
                 rule="one evaluation = one seeded history with high-entropy marker names/values; after every save every file in the state directory is scanned for every marker in raw, hex, base64 (3 alignments, std+url) and JSON-escaped form; distinct = distinct canonical event-log hash; non-trivial = executed at least one call",
                 assumptions=["wholesale replacement by an older valid snapshot is out of scope, as the property says"]),
-    "C06": dict(level="exploration", stages=[dict(kind="sim", quick=25, thorough=600)],
+    "C06": dict(level="exploration", stages=[
+                    dict(kind="sim", name="sink", engine="dbworld-audit", quick=20, thorough=600),
+                    dict(kind="sim", name="race", engine="dbworld-conc-free", race=True, instrumented=False, quick=10, thorough=240,
+                         env={"VERIF_GOMAXPROCS": "4", "GORACE": "halt_on_error=1 exitcode=66", "VERIF_PRINT_START": "1"})],
                 rule="one evaluation = one seeded history of authorised and denied calls with an audit sink that can fail (write error, short write, sync error) at a drawn record; distinct = distinct canonical event-log hash; non-trivial = executed at least one call",
                 assumptions=["sink is an in-memory io.Writer with Sync; the real audit.NewFile path is exercised in the concurrent stage"]),
     "C08": dict(level="exploration", stages=[dict(kind="sim", quick=25, thorough=600)],
                 rule="one evaluation = one seeded history through Client -> in-process transport -> real handlers, with request corruption and identity faults on a drawn subset of requests, each classified ill-formed / well-formed / unspecified independently of the server; distinct = distinct canonical event-log hash; non-trivial = executed at least one call",
                 assumptions=["no sockets: requests are delivered by calling mux.ServeHTTP"]),
+    "C14": dict(level="exploration", stages=[
+                    dict(kind="sim", name="baton", engine="dbworld-conc", quick=20, thorough=600),
+                    dict(kind="sim", name="race", engine="dbworld-conc-free", race=True, instrumented=False, quick=12, thorough=240,
+                         env={"VERIF_GOMAXPROCS": "4", "GORACE": "halt_on_error=1 exitcode=66", "VERIF_PRINT_START": "1"})],
+                rule="one evaluation = one concurrent history (2-4 clients x 2-5 calls on 1-2 shared names, DB API or handlers) under a seeded baton schedule with park points at every mutex acquisition, audit write, WhoIs call and transport delivery/response, decided by porcupine against the map model with a final sequential read-out; second stage: the same workloads free-running under the race detector; distinct = distinct canonical event-log hash (schedule + results); non-trivial = at least one scheduling step",
+                probes_required=["lock-contention", "porcupine-ok"],
+                assumptions=["interleavings are controlled at lock/seam granularity; finer effects are visible only to the race-detector stage, whose reports replay as 'same workload seed, re-run'", "porcupine timeouts (30 s) are counted as inconclusive, never reported"]),
     "C09": dict(level="exploration", stages=[dict(kind="sim", quick=25, thorough=600)],
                 rule="one evaluation = one seeded history biased to conditional gets with V drawn from {active, older, deleted, larger, 0}, through DB API, handlers+Client and FileClient; distinct = distinct canonical event-log hash; non-trivial = executed at least one call",
                 assumptions=["sequential callers; concurrency of activation with conditional gets is C14's"]),
 }
+
+
+def race_in_repo(ck, report):
+    """A race counts only if one of the two conflicting accesses is in repository code."""
+    secs = report.split("\n\n")[:2]
+    for sec in secs:
+        for line in sec.splitlines():
+            line = line.strip()
+            if line.startswith("/") and not line.startswith("/opt/veriftools/go"):
+                if line.startswith(ck.REPO.rstrip("/") + "/"):
+                    return True
+                break
+    return False
 
 
 def run_property(ck, b, prop, cfg, tier, seed, replay, t0):
@@ -53,6 +76,25 @@ def run_property(ck, b, prop, cfg, tier, seed, replay, t0):
             tot = ck.merge(sums)
             tot["stage"] = st.get("name", st.get("engine", "sim"))
             totals.append(tot)
+            for c in list(crashes):
+                if "DATA RACE" in c["log"]:
+                    # race detector verdict (E4): replay = same workload seed, re-run
+                    starts = [l for l in c["log"].splitlines() if l.startswith("START ")]
+                    eng, sd = (starts[-1].split()[1], int(starts[-1].split()[2])) if starts else (st.get("engine", ""), 0)
+                    i0 = c["log"].find("WARNING: DATA RACE")
+                    report = c["log"][i0:i0 + 6000]
+                    if not race_in_repo(ck, report):
+                        harness_trouble.append("race report whose accesses are not in the repository (harness race):\n" + report[:3000])
+                        crashes.remove(c)
+                        continue
+                    keep = os.path.join(ck.VERIF, "replays", prop)
+                    os.makedirs(keep, exist_ok=True)
+                    dst = os.path.join(keep, "%s-%s-race-%d.json" % (prop, eng, sd))
+                    json.dump(dict(property=prop, engine=eng, seed=sd, regenerate=True, race_report=report,
+                                   violation=dict(oracle=prop + ".race", step=0, message="data race reported by the race detector:\n" + report)),
+                              open(dst, "w"), indent=1)
+                    violations.append(dict(oracle=prop + ".race", message="data race reported by the race detector:\n" + report, replay=dst))
+                    crashes.remove(c)
             for c in crashes:
                 harness_trouble.append("worker %d of stage %d exited with %s:\n%s" % (c["worker"], i, c["rc"], c["log"]))
             for path in tot["violations"]:
